@@ -8,6 +8,7 @@ import (
 	"strings"
 	"testing"
 
+	"github.com/Yiling-J/theine-go/internal/vrt"
 	"github.com/Yiling-J/theine-go/internal/vrt/vh"
 )
 
@@ -210,6 +211,110 @@ func TestVerif_C05(t *testing.T) {
 		b.run()
 		res.Bounds["cfg"] = cfg.Name
 		res.Bounds["depth"] = cfg.Depth
+		if res.Error != "" {
+			return
+		}
+	}
+}
+
+// ---- E1-ICB: the same accounting under interleavings inside the critical sections ----
+// Every key is set at most once per driver, so each successful Set is one incarnation.
+
+func c05IcbCheck(res *vh.Result, cfg *icCfg) func(r *icRun, x *vrt.Sched, cost int) {
+	return func(r *icRun, x *vrt.Sched, cost int) {
+		rp := map[string]any{"driver": cfg.Name, "choices": x.Choices()}
+		viol := func(clause, sig, d string) {
+			res.Violate(clause, sig, cfg.Name+": "+d+"\nhistory: "+r.history()+"\nlistener: "+fmtNotes(r.h.notes)+"\nresident: "+fmtMap(r.final), cost, rp)
+		}
+		if len(r.stuck) > 0 || x.ErrKind == "deadlock" {
+			viol("deadlock", strings.Join(r.stuck, ","), "clients never finished "+x.Err)
+			return
+		}
+		stored := map[[2]int]*icCall{}
+		deleted := map[int]bool{}
+		for _, c := range r.calls {
+			if c.Op.Kind == "set" && c.OK {
+				stored[[2]int{c.Op.K, c.V}] = c
+			}
+			if c.Op.Kind == "del" {
+				deleted[c.Op.K] = true
+			}
+		}
+		seen := map[[2]int]int{}
+		for _, n := range r.h.notes {
+			kv := [2]int{n.K, n.V}
+			seen[kv]++
+			if seen[kv] == 2 {
+				viol("duplicate-notification", fmt.Sprintf("reason=%d", n.R), fmt.Sprintf("(%d,%d) reported twice", n.K, n.V))
+			}
+			c := stored[kv]
+			if c == nil {
+				viol("notification-for-unwritten-value", fmt.Sprintf("reason=%d", n.R), fmt.Sprintf("(%d,%d) was never stored", n.K, n.V))
+				continue
+			}
+			if v, ok := r.final[n.K]; ok && v == n.V {
+				viol("notified-but-resident", fmt.Sprintf("reason=%d", n.R), fmt.Sprintf("(%d,%d) reported but still resident", n.K, n.V))
+			}
+			switch n.R {
+			case REMOVED:
+				if !deleted[n.K] {
+					viol("wrong-reason", "REMOVED-without-delete", fmt.Sprintf("(%d,%d) reported REMOVED, no Delete was issued", n.K, n.V))
+				}
+			case EXPIRED:
+				if c.Op.TTL == 0 {
+					viol("wrong-reason", "EXPIRED-without-deadline", fmt.Sprintf("(%d,%d) reported EXPIRED but has no deadline", n.K, n.V))
+				}
+			}
+		}
+		for kv := range stored {
+			if v, ok := r.final[kv[0]]; ok && v == kv[1] {
+				continue
+			}
+			if seen[kv] == 0 {
+				how := "policy"
+				if deleted[kv[0]] {
+					how = "delete-or-policy"
+				}
+				viol("missing-notification", "departed-by-"+how, fmt.Sprintf("(%d,%d) is no longer resident and was never reported", kv[0], kv[1]))
+			}
+		}
+		var rs []string
+		for _, n := range r.h.notes {
+			rs = append(rs, fmt.Sprint(n.R))
+		}
+		sort.Strings(rs)
+		res.Outcome(fmt.Sprintf("%s|%d|%s|%s", cfg.Name, len(stored), fmtMap(r.final), strings.Join(rs, "")))
+		if res.NOutcomes() <= 2 {
+			res.Sample(map[string]any{"driver": cfg.Name, "history": r.history(), "listener": fmtNotes(r.h.notes)})
+		}
+	}
+}
+
+func c05IcbDrivers() []*icCfg {
+	S := func(k int) icOp { return icOp{Kind: "set", K: k, Cost: 1} }
+	T := func(k int, ttl int64) icOp { return icOp{Kind: "set", K: k, Cost: 1, TTL: ttl} }
+	D := func(k int) icOp { return icOp{Kind: "del", K: k} }
+	tick := icOp{Kind: "tick", Arg: 2 * sec}
+	m1 := hOpts{MaxSize: 1, ChanSize: 2, BufSize: 2}
+	m1p := hOpts{MaxSize: 1, ChanSize: 2, BufSize: 2, Pool: true}
+	return []*icCfg{
+		{Name: "del-vs-evict", O: m1, Scripts: [][]icOp{{S(1), D(1)}, {S(2)}, {S(4)}}},
+		{Name: "del-vs-expire", O: m1, Scripts: [][]icOp{{T(1, sec), D(1)}, {S(2)}, {tick}}},
+		{Name: "del-vs-evict-pool", O: m1p, Fresh: true, Scripts: [][]icOp{{S(1), D(1)}, {S(2)}, {S(4)}}},
+	}
+}
+
+func TestVerif_C05Icb(t *testing.T) {
+	env := vh.Env()
+	res := vh.NewResult("C05/icb", "E1-ICB", env)
+	defer res.Write()
+	for _, cfg := range c05IcbDrivers() {
+		if d := env.Params["driver"]; d != "" && d != cfg.Name {
+			continue
+		}
+		cfg.P, cfg.D = env.Int("P", 2), env.Int("D", 1)
+		cfg.EndWait = true
+		icExplore(res, env, cfg, c05IcbCheck(res, cfg))
 		if res.Error != "" {
 			return
 		}
